@@ -180,6 +180,8 @@ def index_values_case(draw, mode):
     ranges, sorted, constant, reversed): values are concrete in eager mode and under a closure, traced when the operator is
     an argument of a filtering jit."""
     n = draw(st.integers(3, 7))
+    if draw(st.integers(0, 2)) == 0:
+        n = draw(st.sampled_from([70, 100, 130, 200]))  # long axes: runs of 64 and more consecutive indices
     shape = [n] if draw(st.booleans()) else ([n, draw(st.integers(1, 2))] if draw(st.booleans()) else [draw(st.integers(1, 2)), n])
     last = shape[-1] == n and len(shape) == 2 and shape[0] != n
     S = St.leaf(shape, draw(st.sampled_from(gen.dtypes(mode))))
@@ -188,7 +190,12 @@ def index_values_case(draw, mode):
     cnt = draw(st.integers(1, n))
     a0 = draw(st.integers(0, n - cnt))
     vals = list(range(a0, a0 + cnt))
-    pat = draw(st.sampled_from(['range', 'near_range', 'near_range', 'sorted', 'constant', 'reversed', 'negative_range']))
+    pat = draw(st.sampled_from(['range', 'near_range', 'near_range', 'sorted', 'constant', 'reversed', 'negative_range', 'wrap_range']))
+    if n >= 64:
+        pat = draw(st.sampled_from(['wrap_range', 'wrap_range', 'range', 'negative_range']))
+        cnt = draw(st.integers(64, n))
+        a0 = draw(st.integers(0, n - cnt))
+        vals = list(range(a0, a0 + cnt))
     if pat == 'near_range' and cnt >= 3:
         j0 = draw(st.integers(1, cnt - 2))
         vals[j0] = vals[j0 + draw(st.sampled_from([-1, 1]))]
@@ -200,6 +207,10 @@ def index_values_case(draw, mode):
         vals = vals[::-1]
     elif pat == 'negative_range':
         vals = [v - n for v in vals]
+    elif pat == 'wrap_range' and cnt >= 2:
+        # a run that starts at a negative index and runs past zero: -k, ..., -1, 0, 1, ...
+        k_ = draw(st.integers(1, cnt - 1))
+        vals = list(range(-k_, cnt - k_))
     idx = [{'e': 1}, {'a': vals}] if last else [{'a': vals}]
     r = {'k': 'index', 'in': S, 'idx': idx, 'explicit_out': draw(st.booleans()), 'unique': None, 'bare': draw(st.booleans())}
     return {'defs': [], 'expr': r, 'probe': draw(st.lists(st.integers(0, 1000), min_size=8, max_size=8))}
